@@ -229,6 +229,16 @@ CLAIMS.update({
         design='4/C03'),
 })
 
+SHAPE_NOTE = (' R-SHAPE: a shape analysis over list segments (materialise / fold, fixpoint over the CFG) proves for '
+              'every list length that the in-place list manipulation neither loses, duplicates nor cycles nodes and '
+              'finishes / returns each one.')
+for _p in ('C01', 'C06', 'C07', 'C14', 'C16'):
+    CLAIMS[_p]['text'] = CLAIMS[_p]['text'].rstrip() + SHAPE_NOTE
+    if 'shape analysis' not in CLAIMS[_p]['technique']:
+        CLAIMS[_p]['technique'] += ' + shape analysis (abstract interpretation over list segments)'
+CLAIMS['C01']['text'] += (' R-COMMIT: Promise::Set constructs the Result (which may throw) before it gives the handle '
+                          'away.')
+
 NOT_YET = {}
 
 
